@@ -364,6 +364,7 @@ fn cut_classes(ty: &Ty, val: &Val, len: usize) -> Vec<(usize, &'static str)> {
                     ItemFlag | Terminator => "at item flag / terminator",
                     CtorIdx => "at constructor index",
                     DedupRef => "at string back-reference",
+                    LeafVarI | LeafVarU => "inside a var-int of a leaf value",
                     FixedInt | Elem | Chunk => continue,
                 };
                 for i in s.off..(s.off + s.len).min(len) {
